@@ -114,6 +114,11 @@ func chunkOps(r *lib.Rng, total, fs int, style int) []Op {
 			if r.Chance(1, 4) {
 				n = r.Range(3*fs, 5*fs)
 			}
+		case 4: // many reads that each hold a little more than the 3-frame minimum
+			n = r.Range(3*fs, 4*fs+fs/2)
+			if r.Chance(1, 5) {
+				n = r.Range(1, fs)
+			}
 		default: // large unaligned
 			n = r.Range(3*fs+1, 9*fs)
 		}
@@ -123,6 +128,23 @@ func chunkOps(r *lib.Rng, total, fs int, style int) []Op {
 		t += int64(r.Range(1, 3))
 		ops = append(ops, Op{Op: "C", N: n, T: t})
 		at += n
+	}
+	return ops
+}
+
+// addLag marks runs of 2..6 consecutive reads whose blocks stay queued on buffersChan (the run ends at the
+// next unmarked read, mix request or the end of the script, where the harness fetches them in order)
+func addLag(r *lib.Rng, ops []Op) []Op {
+	runs := r.Range(1, 2)
+	for k := 0; k < runs; k++ {
+		at := r.Intn(len(ops))
+		n := r.Range(2, 6)
+		for i := at; i < len(ops) && n > 0; i++ {
+			if ops[i].Op == "C" {
+				ops[i].Q = true
+				n--
+			}
+		}
 	}
 	return ops
 }
@@ -214,11 +236,30 @@ func baseCase(r *lib.Rng, id int64, tier string, kind string) (Case, streamSpec)
 func genCase(r *lib.Rng, id int64, tier string) Case {
 	k := r.Intn(100)
 	switch {
-	case k < 30:
+	case k < 22:
 		c, sp := baseCase(r, id, tier, "chunking")
 		s := makeStream(r, sp)
 		c.Stream = hex.EncodeToString(s)
 		c.Ops = chunkOps(r, len(s), 4*sp.ncols*sp.nrows, r.Pick([]int{0, 0, 0, 1, 2, 3}))
+		if r.Chance(1, 3) {
+			c.Ops = addLag(r, c.Ops)
+		}
+		return c
+	case k < 36:
+		// the consumer lags: several reads (each big enough for a block) queue up on buffersChan before
+		// getNextBlock/distributeData fetch them
+		c, sp := baseCase(r, id, tier, "lag")
+		if sp.nframes < 20 {
+			sp.nframes = 20
+		}
+		fs := 4 * sp.ncols * sp.nrows
+		s := makeStream(r, sp)
+		c.Stream = hex.EncodeToString(s)
+		c.Ops = chunkOps(r, len(s), fs, 4)
+		if r.Chance(1, 3) {
+			c.Ops = insertMix(r, c.Ops, 2*sp.ncols*sp.nrows, 1, false)
+		}
+		c.Ops = addLag(r, c.Ops)
 		return c
 	case k < 58:
 		c, sp := baseCase(r, id, tier, "mix")
@@ -229,6 +270,9 @@ func genCase(r *lib.Rng, id int64, tier string) Case {
 		c.Stream = hex.EncodeToString(s)
 		c.Ops = chunkOps(r, len(s), 4*sp.ncols*sp.nrows, r.Pick([]int{0, 1, 3}))
 		c.Ops = insertMix(r, c.Ops, 2*sp.ncols*sp.nrows, r.Range(1, 4), r.Chance(1, 8))
+		if r.Chance(1, 4) {
+			c.Ops = addLag(r, c.Ops)
+		}
 		return c
 	case k < 70:
 		c, sp := baseCase(r, id, tier, "ext")
@@ -329,6 +373,9 @@ func genGap(r *lib.Rng, id int64, tier string) Case {
 		}
 		if r.Chance(1, 5) {
 			c.Ops = insertMix(r, c.Ops, 2*sp.ncols*sp.nrows, 1, false)
+		}
+		if r.Chance(1, 5) {
+			c.Ops = addLag(r, c.Ops)
 		}
 		data, _ := c.chunkData()
 		tags, _ := inputTags(c, data)
@@ -492,6 +539,17 @@ func corpus() []Case {
 		c := Case{Ncols: 3, Nrows: 2, Nsamp: 2, Rate: 1000, GapPos: pos, GapLen: glen, Kind: "corpus", Stream: hex.EncodeToString(cut)}
 		c.Ops = []Op{{Op: "C", N: 10*24 + 8, T: 2}, {Op: "M", Ch: []int{1, 3}, Fr: []float64{0.5, 0.5}}, {Op: "C", N: 200, T: 4},
 			{Op: "C", N: len(cut) - 448, T: 5}}
+		out = append(out, c)
+	}
+	// 11. the consumer lags four reads behind the reader (reads of 9.5, 7.25, 5 and 4.5 frames wait on buffersChan
+	//     before the first block is fetched), then three more, with a mix request in between
+	{
+		sp := streamSpec{ncols: 2, nrows: 2, nframes: 44, values: 0, flags: 2}
+		s := makeStream(r, sp)
+		c := Case{Ncols: 2, Nrows: 2, Nsamp: 2, Rate: 1000, GapPos: -1, Kind: "corpus", Stream: hex.EncodeToString(s)}
+		c.Ops = []Op{{Op: "C", N: 152, T: 1, Q: true}, {Op: "C", N: 116, T: 2, Q: true}, {Op: "C", N: 80, T: 3, Q: true},
+			{Op: "C", N: 72, T: 4, Q: true}, {Op: "M", Ch: []int{1, 5}, Fr: []float64{0.5, -2}},
+			{Op: "C", N: 64, T: 5, Q: true}, {Op: "C", N: 100, T: 6, Q: true}, {Op: "C", N: 60, T: 7, Q: true}, {Op: "C", N: 60, T: 8}}
 		out = append(out, c)
 	}
 	return out
